@@ -59,9 +59,9 @@ Final == /\ Live("final") /\ UNCHANGED stats
          /\ JudgeK(<< <<"C13.ResolvesOnceConnectionsClosed", (s.fired \/ s.incomingEnded) => (E.resolved /\ s.resolved)>>,
                       <<"C13.NoResolveWithoutSignal", ~(s.fired \/ s.incomingEnded) => ~E.resolved>>,
                       <<"C13.EveryAcceptedCallAnswered", \A k \in s.accepted : k \in s.done>> >>, [s EXCEPT !.final = TRUE])
-Ignore == /\ l <= Len(Rec) /\ ~dead /\ E.e \in {"client_connect_err"} /\ l' = l + 1 /\ UNCHANGED <<run, dead, bad, s, stats>>
+Ignore == /\ l <= Len(Rec) /\ ~dead /\ E.e \in {"client_connect_err", "accept_error"} /\ l' = l + 1 /\ UNCHANGED <<run, dead, bad, s, stats>>
 End == EndK(<< <<"RunComplete", E.outcome = "ok" => s.final>> >>)
-Known == {"reset", "step", "taken", "srv_req", "srv_done", "call_done", "call_aborted", "resolved", "epilogue", "final", "client_connect_err", "hook", "end"}
+Known == {"reset", "accept_error", "step", "taken", "srv_req", "srv_done", "call_done", "call_aborted", "resolved", "epilogue", "final", "client_connect_err", "hook", "end"}
 Next == Reset \/ Step \/ Taken \/ SrvReq \/ SrvDone \/ CallDone \/ Aborted \/ Resolved \/ Hook \/ Epilogue \/ Final \/ Ignore \/ End \/ UnknownK(Known) \/ DeadSkipK
 Spec == Init /\ [][Next]_kvars
 =============================================================================
